@@ -4,7 +4,8 @@ import Tally.Model.RootClose
 Driver for the lock-step suite of the root's `Close` (C08).  The harness drives the real `scope.Close`,
 the real report-loop goroutine and recording application threads one hook-to-hook transition at a time
 and translates every transition into events of `Model.RootClose`; the driver applies them, rejects what
-the model does not allow, tells which `Close` calls would block in `wg.Wait()`, and at the end compares
+the model does not allow, tells which `Close` calls would block (the winner in `wg.Wait()`, a call that lost the
+CAS in `<-s.closeDone` until the winning call has returned — repair D17), and at the end compares
 the model's reporter log with the log of the real reporter and evaluates the barrier clauses.
 
 Lines:
@@ -15,16 +16,20 @@ Lines:
   `adv loop <target> [<c1,c2,…>]` | `adv closer <t> <target> [<c1,c2,…>]`  → ok [pend=<n>] | reject …
         applies `loop c` / `closer t c` events (at least one, at most k+6) until the thread's pc is <target>;
         targets: waiting ticked begin deliver:<cell> flush exited   (loop)
-                 won doneClosed begin deliver:<cell> purge flush reporterClose returned returnedNil   (closer)
+                 won doneClosed begin deliver:<cell> purge flush reporterClose returned
+                 wait-winner returnedNil   (closer)
         (a pc inside the range loops is shown as `pick:<number of cells visited>`; for a closer `purge` =
         the final pass is over, about to purge, and `flush` = purged, about to call Flush: the final flush
-        comes AFTER the purge)
+        comes AFTER the purge; `wait-winner` = the call lost the CAS and is at `<-s.closeDone`: its next step,
+        to `returnedNil`, is enabled only once the winning call is at `returned`.  `adv closer <t> returnedNil`
+        from `start` therefore takes two steps and is rejected while the winner has not returned)
         the optional last token `c1,c2,…` (`-` = none; may be written `<c1,c2,…>`) lists the cells the pass
         visits during this advance, in order: the choices of the successive `pick` steps; when the list is
         exhausted and a `pick` step is still needed the choice is k ("the range loops are over").  Without
         the token the visiting order is 0,1,…,k-1 as far as needed (first unvisited index; k when all are
         visited).  The registry is Go maps: the real visiting order is arbitrary and differs between passes.
-  `blocked`                                        → blocked <t,t,…>   (Close calls waiting for the loop goroutine)
+  `blocked`                                        → blocked <t,t,…>   (Close calls that cannot move now: the winner at
+        `doneClosed` waiting for the loop goroutine, and every call at `wait-winner` while the winner has not returned)
   `final <observed reporter log>`                  → ok | differ <model log> | violated <clause>
         log tokens, oldest first, `;`-separated: `d<cell>:<n>` (a delivery of n increments of cell), `f`, `c`
 -/
@@ -49,6 +54,7 @@ def loopName : LoopPc → String
 def closerName : CPc → String
   | .start => "start" | .won => "won" | .doneClosedPc => "doneClosed" | .purgePc => "purge" | .flushPc => "flush"
   | .reporterClose => "reporterClose" | .returned _ => "returned" | .returnedNil => "returnedNil"
+  | .waitWinner => "wait-winner"
   | .pass p => passName p
 
 def applyEv (d : DState) (e : Ev) : Option DState :=
@@ -100,7 +106,12 @@ def advLoop (d : DState) (target : String) (order : Option (List Nat)) : DState 
 def advCloser (d : DState) (t : Nat) (target : String) (order : Option (List Nat)) : DState × String :=
   match advance d (.closer t) (closerPass t) (fun s => closerName (s.closers t) == target) order (d.k + 6) with
   | some d' => ({ d' with nClosers := max d'.nClosers (t + 1) }, s!"ok pend={(d'.st.closers t).pend.length}")
-  | none => (d, s!"reject closer-{t}-cannot-reach {target} from {closerName (d.st.closers t)} loop={loopName d.st.loop}")
+  | none => (d, s!"reject closer-{t}-cannot-reach {target} from {closerName (d.st.closers t)} loop={loopName d.st.loop} closeDone={d.st.closeDone}")
+
+/-- the `Close` call `t` cannot move now: the winner in `wg.Wait()` while the loop goroutine is alive, or a call
+that lost the CAS in `<-s.closeDone` while the winning call has not returned -/
+def closerBlocked (s : State) (t : Nat) : Bool :=
+  (s.closers t == .doneClosedPc && s.loop != .exited) || (s.closers t == .waitWinner && !s.closeDone)
 
 def showLog (l : List LogEv) : String :=
   let toks := l.reverse.filterMap fun
@@ -128,6 +139,8 @@ def finalCheck (d : DState) : Option String :=
       | .flush :: _ => s.closable
       | _ => true) then some "flush-then-close"
   else if winnerReturned && s.loop != .exited then some "report-goroutine-ended"
+  else if !winnerReturned && (s.closeDone || (List.range (max d.nClosers 4)).any fun t => s.closers t == .returnedNil) then
+    some "close-call-returned-before-shutdown-complete"
   else none
 
 def handle (d : DState) (toks : List String) : DState × String :=
@@ -175,7 +188,7 @@ def handle (d : DState) (toks : List String) : DState × String :=
     | some t, some o => advCloser d t target (some o)
     | _, _ => (d, "bad-op parse")
   | ["blocked"], [] =>
-    let ts := (List.range (max d.nClosers 4)).filter fun t => d.st.closers t == .doneClosedPc && d.st.loop != .exited
+    let ts := (List.range (max d.nClosers 4)).filter fun t => closerBlocked d.st t
     (d, "blocked " ++ ",".intercalate (ts.map toString))
   | ["final"], [olog] =>
     let m := showLog d.st.log
